@@ -510,13 +510,31 @@ class PiecewiseConstantCoalescentGrid(AbstractCoalescentDistribution):
 
     def sufficient_statistics(self, node_heights: torch.Tensor):
         node_mask_sorted, lchoose2, durations = self._sorted_terms(node_heights)
-        groups = torch.tensor_split(
-            lchoose2 * durations, torch.where(node_mask_sorted == 0)[0]
-        )
+        if node_mask_sorted.dim() > 1:
+            # one set of statistics per sample (same layout as
+            # PiecewiseConstantCoalescent.sufficient_statistics)
+            batch_shape = node_mask_sorted.shape[:-1]
+            statistics = [
+                self._sufficient_statistics(mask, terms)
+                for mask, terms in zip(
+                    node_mask_sorted.reshape(-1, node_mask_sorted.shape[-1]),
+                    (lchoose2 * durations).reshape(-1, lchoose2.shape[-1]),
+                )
+            ]
+            sufficient_statistics = torch.stack([s[0] for s in statistics])
+            coalescent_counts = torch.stack([s[1] for s in statistics])
+            return (
+                sufficient_statistics.reshape(batch_shape + (-1,)),
+                coalescent_counts.reshape(batch_shape + (-1,)),
+            )
+        return self._sufficient_statistics(node_mask_sorted, lchoose2 * durations)
+
+    @staticmethod
+    def _sufficient_statistics(node_mask_sorted, terms):
+        grid_indices = torch.where(node_mask_sorted == 0)[0]
+        groups = torch.tensor_split(terms, grid_indices)
         sufficient_statistics = torch.tensor(list(map(torch.sum, groups)))
-        groups = torch.tensor_split(
-            node_mask_sorted == -1, torch.where(node_mask_sorted == 0)[0]
-        )
+        groups = torch.tensor_split(node_mask_sorted == -1, grid_indices)
         coalescent_counts = torch.tensor(list(map(torch.sum, groups)))
         return sufficient_statistics, coalescent_counts
 
